@@ -28,15 +28,29 @@ Theorem C03_round_closed : forall ws we,
 Proof. exact bucket_get_round_closed. Qed.
 Print Assumptions C03_round_closed.
 
-Theorem C03_round_whole_ms_offset : forall utc off, off mod 1000 = 0 ->
-  round_start_tz utc off = round_start utc /\ round_end_tz utc off = round_end utc.
-Proof. exact round_tz_whole_ms. Qed.
-Print Assumptions C03_round_whole_ms_offset.
+(* an aware edge (utc instant, utcoffset): since 49e3288 Bucket.get converts it to UTC before the
+   rounding arithmetic, so the edge handed to the storage depends on the INSTANT alone -- for
+   every utcoffset (the former premise `off mod 1000 = 0` of C03_round_whole_ms_offset is gone:
+   the microsecond field that is rounded is the one of the UTC reading) ... *)
+Theorem C03_round_instant_only : forall utc off,
+  bucket_round_start_tz utc off = round_start utc /\ bucket_round_end_tz utc off = round_end utc.
+Proof. exact bucket_round_tz_instant. Qed.
+Print Assumptions C03_round_instant_only.
 
+(* ... in closed form: the start floored to the millisecond of the epoch clock, the end pushed
+   to the next one (was: bounds only, for offsets that are not whole milliseconds) *)
 Theorem C03_round_any_offset : forall utc off,
-  utc - 1000 < round_start_tz utc off <= utc /\ utc < round_end_tz utc off <= utc + 1000.
-Proof. exact round_tz_bounds. Qed.
+  bucket_round_start_tz utc off = floor_ms utc /\ bucket_round_end_tz utc off = floor_ms utc + 1000.
+Proof. exact bucket_round_tz_closed. Qed.
 Print Assumptions C03_round_any_offset.
+
+(* sensitivity (the repaired defect C03:window-end-in-fold, witness w23): the end rounding as it
+   was before 49e3288, on an edge given with fold = 1 whose wall time has utcoffset off1 in its
+   second reading and off0 in its first, lands off0 - off1 (one offset change) early *)
+Theorem C03_round_end_fold_before_repair : forall utc off1 off0, off1 mod 1000 = 0 ->
+  old_round_end_fold utc off1 off0 = bucket_round_end_tz utc off1 - (off0 - off1).
+Proof. exact old_round_end_fold_early. Qed.
+Print Assumptions C03_round_end_fold_before_repair.
 
 (* ------------------------------------------------------------------------- *)
 (* limit and order, for any back end *)
@@ -353,6 +367,18 @@ Definition ex_pw : pwstate :=
 
 Example ex_round : bucket_get_round ex_ws ex_we = (Some 1600000003000000, Some 1600000014000000).
 Proof. vm_compute. reflexivity. Qed.
+
+(* 2021-10-31T01:30:00Z written as 02:30 fold=1 Europe/Berlin (+01:00; the first reading of 02:30 is
+   +02:00): handed on as 01:30:00.001Z; before the repair as 00:30:00.001Z, an hour early.
+   And an offset of 0.5 ms: the local reading's field would floor 100 us too low. *)
+Example ex_round_fold :
+  bucket_round_end_tz 1635643800000000 3600000000 = 1635643800001000 /\
+  old_round_end_fold 1635643800000000 3600000000 7200000000 = 1635640200001000.
+Proof. split; vm_compute; reflexivity. Qed.
+Example ex_round_sub_ms_offset :
+  bucket_round_start_tz 1600000000000600 500 = 1600000000000000 /\
+  round_start_tz 1600000000000600 500 = 1600000000000500.
+Proof. split; vm_compute; reflexivity. Qed.
 
 Example ex_mem_view : exists m es, mem_view ex_mem 1 = Some (m, es) /\ length es = 5%nat /\
   In (mkEvent (Some 1) 1600000002000000 1000000 2) es /\
